@@ -454,6 +454,12 @@ def departures(spec):
                 new = dict(spec)
                 new["index"] = (list(I), list(O))
                 yield "index", new
+        # the two index arrays are checked separately: every removal order with the insertion order valid
+        ident = list(range(len(e)))
+        for O in itertools.product(list(range(-1, len(e) + 1)) + [2 ** 31 - 1], repeat=len(e)):
+            new = dict(spec)
+            new["index"] = (ident, list(O))
+            yield "index-removal", new
         for I in itertools.permutations(range(len(e))):
             for O in itertools.permutations(range(len(e))):
                 new = dict(spec)
